@@ -621,15 +621,21 @@ def call_builtin(models, eng, name, args, kws, st, node):
         if it is None:
             raise OutOfReach('iter(%r)' % (a0,))
         return [(st, st.alloc(OIter(it, t.ZERO), 'iterator'))]
-    if name == 'next' and len(args) == 1 and isinstance(a0, VRef) and isinstance(st.get(a0), OIter):
+    if name == 'next' and len(args) in (1, 2) and not kws and isinstance(a0, VRef) and isinstance(st.get(a0), OIter):
+        # next(it) raises StopIteration on an exhausted iterator, next(it, default) returns the default (and leaves it exhausted)
         o = st.get(a0)
         it = o.it
+
+        def exhausted(s_):
+            if len(args) == 2:
+                return [(s_, args[1])]
+            return eng.raise_(s_, 'StopIteration', origin='next() on an exhausted iterator')
         if it.what == 'concrete':
             if o.idx.op == 'int' and o.idx.args[0] < len(it.items):
                 st.put(a0, OIter(it, I(o.idx.args[0] + 1)))
                 return [(st, it.items[o.idx.args[0]])]
             if o.idx.op == 'int':
-                return eng.raise_(st, 'StopIteration', origin='next() on an exhausted iterator')
+                return exhausted(st)
             raise OutOfReach('symbolic position in a concrete iterator')
         out = []
         more, done = eng.fork(st, t.lt(o.idx, it.n)) if it.n is not None else (st, None)
@@ -638,7 +644,7 @@ def call_builtin(models, eng, name, args, kws, st, node):
             more.put(a0, OIter(it, t.add(o.idx, t.ONE)))
             out.append((more, item))
         if done is not None:
-            out.extend(eng.raise_(done, 'StopIteration', origin='next() on an exhausted iterator'))
+            out.extend(exhausted(done))
         return out
     if name in ('iter', 'next', 'hasattr', 'getattr', 'id', 'sorted', 'super', 'object', 'slice'):
         if models.interface is not None:
